@@ -322,7 +322,7 @@ def _adopt_moved(P, c, ledger, key, info, adopted):
     rest = key.split("|", 1)[1].rsplit("#", 1)[0]
     g = P.callgraph()
     for k2, (cls, reason) in sorted(ledger.items()):
-        if k2 in c or k2 in adopted or "|" not in k2 or cls.split(":")[0] not in ("L-REASON", "D-LOCAL"):
+        if k2 in c or k2 in adopted or "|" not in k2 or cls.split(":")[0] in ("KNOWN",):
             continue
         f2, rest2 = k2.split("|", 1)
         if rest2.rsplit("#", 1)[0] != rest:
@@ -335,7 +335,7 @@ def _adopt_moved(P, c, ledger, key, info, adopted):
         for other in cands:
             if other.file != fn.file:
                 continue
-            if fn.id in g.get(other.id, ()) or other.id in g.get(fn.id, ()):
+            if other.id == fn.id or fn.id in g.get(other.id, ()) or other.id in g.get(fn.id, ()):
                 adopted.add(k2)
                 return k2
     return None
@@ -380,6 +380,13 @@ def run(P, rep, g, scope, rule="R-PANIC", only=None):
             continue
         if key not in ledger:
             moved = _adopt_moved(P, c, ledger, key, info, adopted)
+            if moved and ledger[moved][0].split(":")[0] not in ("L-REASON", "D-LOCAL", "OUT-OF-DOMAIN"):
+                # machine-checked classes are re-verified at the new site
+                okm, msgm = verify_class(P, g, key, info, ledger[moved][0], None)
+                if okm:
+                    rep.ok(rule, key, where, "%s — %s (site moved from %s)" % (ledger[moved][0].split(":callers=")[0], msgm, moved))
+                    continue
+                moved = None
             if moved:
                 rep.ok(rule, key, where, "%s — reviewed reason of %s adopted: the site moved between a function and its private helper (%s)" % (
                     ledger[moved][0].split(":")[0], moved, ledger[moved][1]))
@@ -416,6 +423,24 @@ def run(P, rep, g, scope, rule="R-PANIC", only=None):
             ok, msg = verify_class(P, g, k, {"fn": None, "block": 0}, cls, None)
             if not ok:
                 del led2[k]
+    # a ledgered slice that moved with its code into a private helper of the same file keeps its (re-verified) justification
+    counts = {f.key: len(list(r_strslice.str_index_sites(P, f))) for f in slice_fns}
+    cg = P.callgraph()
+    for k, v in list(led2.items()):
+        fkey, _, nn = k.rpartition(" str-slice#")
+        owners = [f for f in P.fns.values() if f.key == fkey]
+        if not owners or counts.get(fkey, len(list(r_strslice.str_index_sites(P, owners[0])))) > int(nn):
+            continue  # the site still exists where the ledger says
+        F = owners[0]
+        for G in slice_fns:
+            if G.id == F.id or G.file != F.file or G.id not in cg.get(F.id, ()):
+                continue
+            for j in range(counts.get(G.key, 0)):
+                kk = "%s str-slice#%d" % (G.key, j)
+                if kk not in led2:
+                    led2[kk] = (v[0], v[1] + " (site moved from %s)" % fkey)
+                    rep.trusted.add("ledger/strslice.tsv: %s (adopted by %s)" % (k, kk))
+                    break
     r_strslice.run(P, rep, slice_fns, led2)
     rep.analysed[rule + ".sites_in_scope"] = n
     return c
